@@ -1,2 +1,174 @@
-/- Property theorems for C09 (placeholder until the proofs land). -/
-import Avt.Spec.C09
+/-
+  Avt.Props.C09 — logical text is reproduced exactly, whatever the width.
+
+  Vocabulary (Avt/Spec/C09.lean — the same definitions the oracle evaluates on the implementation):
+  `isPrintable`/`allPrintable`, `inputOf` (lines joined by CR LF), `trimEndWs` (= the model's `trimEnd`,
+  Rust's `str::trim_end`: trailing Unicode White_Space), `dropTrailingEmpty`, `textOK`, `unwrapOK`,
+  `sameText`, `instOK`.
+
+  Proved here, for every width and height ≥ 1, every list of printable lines of any lengths (no bounds),
+  on a fresh terminal with unlimited scrollback:
+  * `C09_text`        — `Vt.feedStr` accepts the input and `text()` is the input lines, trimmed, trailing
+                        empty lines aside;
+  * `C09_unwrap`      — `TextUnwrapper` over `lines()` gives the same lines up to trailing white space
+                        (equal after `trimEndWs`, and each unwrapped line is a prefix of the input line);
+  * `C09_width_indep` — any two geometries give the same `text()`;
+  * `C09_text_full_holds` — all of it in one statement (`C09_text_full`).
+  The proof is the refinement to the "typewriter" invariant `TW` (Lemmas/C09Typewriter.lean):
+  `C09_print_step` (one printed character, with or without pending wrap / scrolling),
+  `C09_crlf_step`, and the characterisations `C09_textGo_spec`, `C09_unwrapMany_spec`,
+  `C09_unwrapMany_append`, `C09_unwrap_vs_text`, the `trimEnd` lemmas.  The parser side uses the first
+  arm of the regenerated table of `Parser::feed` (`feedArms_head`) and the dispatch of CR and LF.
+-/
+import Avt.Lemmas.C09Vt
+
+namespace Avt.Props.C09
+open Avt Avt.Spec.C09 Avt.Lemmas
+
+/-! ### building blocks -/
+
+/-- `trimEnd` is idempotent -/
+theorem C09_trimEnd_idem (s : List Nat) : trimEnd (trimEnd s) = trimEnd s := trimEnd_idem s
+
+/-- a line ending in a non-white-space character is left alone -/
+theorem C09_trimEnd_append_singleton {xs : List Nat} {c : Nat} (h : isWhitespace c = false) :
+    trimEnd (xs ++ [c]) = xs ++ [c] := trimEnd_append_singleton h
+
+/-- trailing white space is removed -/
+theorem C09_trimEnd_append_ws {xs ws : List Nat} (h : ∀ c ∈ ws, isWhitespace c = true) :
+    trimEnd (xs ++ ws) = trimEnd xs := trimEnd_append_ws h
+
+/-- `Buffer::text` of any list of rows: for each maximal group of rows joined along wrap marks,
+    `trimEnd` of the concatenated characters -/
+theorem C09_textGo_spec (ls : List Line) (cur : List Nat) :
+    Buffer.textGo ls cur = (joinText ls cur).map trimEnd := textGo_spec ls cur
+
+/-- `TextUnwrapper` over any list of rows: wrapped rows are accumulated untrimmed, the closing row of
+    each group is trimmed on its own -/
+theorem C09_unwrapMany_spec (ls : List Line) (acc : List Nat) :
+    unwrapMany acc ls = (unwrapAcc ls acc, unwrapOut ls acc) := unwrapMany_spec ls acc
+
+/-- `TextUnwrapper` is a fold that commutes with list append -/
+theorem C09_unwrapMany_append (xs ys : List Line) (acc : List Nat) :
+    unwrapMany acc (xs ++ ys) =
+      ((unwrapMany (unwrapMany acc xs).1 ys).1,
+       (unwrapMany acc xs).2 ++ (unwrapMany (unwrapMany acc xs).1 ys).2) := unwrapMany_append xs ys acc
+
+/-- for ANY buffer content whose last row is unwrapped, the unwrapper agrees with `text()` up to
+    trailing white space (it trims the final row of each logical line only) -/
+theorem C09_unwrap_vs_text (ls : List Line) (h : lastUnwrapped ls = true) :
+    (unwrapAll ls).map trimEnd = Buffer.textGo ls [] := unwrapAll_trimEnd h
+
+/-- one printed character keeps the typewriter invariant (deferred wrap, wrap mark, scrolling into
+    the scrollback included) -/
+theorem C09_print_step {t : Terminal} {logical : List (List Nat)} (hm : TWMode t) (hg : TWGeom t)
+    (h : TW t logical) (ch : Nat) :
+    ∃ t', t.execute (.print ch) = some t' ∧ TWMode t' ∧ TWGeom t' ∧ TW t' (typeChar logical ch) :=
+  TW_print hm hg h ch
+
+/-- CR LF keeps the typewriter invariant: it closes the line, never marking its last row wrapped -/
+theorem C09_crlf_step {t : Terminal} {logical : List (List Nat)} (hm : TWMode t) (hg : TWGeom t)
+    (h : TW t logical) :
+    ∃ t', (t.execute .cr).bind (fun t1 => t1.execute .lf) = some t' ∧ TWMode t' ∧ TWGeom t'
+      ∧ TW t' (typeNewline logical) :=
+  TW_crlf hm hg h
+
+/-- in the typewriter state `text()` and the unwrapper give the typed lines -/
+theorem C09_TW_text {t : Terminal} {logical : List (List Nat)} (hm : TWMode t) (h : TW t logical) :
+    instOK logical t.text (unwrapAll t.buffer.lines) = true := by
+  simp only [instOK, Bool.and_eq_true]
+  exact ⟨TW_text hm h, TW_unwrapOK h⟩
+
+/-! ### the property -/
+
+/-- the terminal reached by feeding the lines (joined by CR LF) to a fresh `cols × rows` terminal with
+    unlimited scrollback -/
+def fed (cols rows : Nat) (ls : List (List Nat)) : Option (Vt × Changes) :=
+  (Vt.new cols rows none).bind fun v0 => v0.feedStr (inputOf ls)
+
+/-- **C09, full statement** -/
+def C09_text_full : Prop :=
+  ∀ (ls : List (List Nat)), allPrintable ls = true →
+    (∀ (c r : Nat), 1 ≤ c → 1 ≤ r →
+      ∃ v ch, fed c r ls = some (v, ch) ∧ instOK ls v.text (unwrapAll v.lines) = true)
+    ∧ (∀ (c0 r0 c1 r1 : Nat), 1 ≤ c0 → 1 ≤ r0 → 1 ≤ c1 → 1 ≤ r1 →
+      ∀ v0 ch0 v1 ch1, fed c0 r0 ls = some (v0, ch0) → fed c1 r1 ls = some (v1, ch1) →
+        sameText v0.text v1.text = true)
+
+theorem prefixwise_nil_right (u : List (List Nat)) : prefixwise u [] = true := by
+  cases u <;> rfl
+
+/-- what `fed` reaches, in terms of the oracle's predicates -/
+theorem fed_ok {c r : Nat} (hc : 1 ≤ c) (hr : 1 ≤ r) (ls : List (List Nat)) (hp : allPrintable ls = true) :
+    ∃ v ch, fed c r ls = some (v, ch) ∧ textOK ls v.text = true ∧ unwrapOK ls (unwrapAll v.lines) = true := by
+  obtain ⟨v, ch, t1, hfed, hm1, hw1, hl, ha⟩ := feedStr_TW hc hr ls hp
+  refine ⟨v, ch, hfed, ?_, ?_⟩
+  · have htext : v.text = t1.text := by
+      simp only [Vt.text, Terminal.text, Terminal.primaryBuffer, ha, hm1.primary, if_true, Buffer.text, hl]
+    have := TW_text hm1 hw1
+    simp only [textOK, beq_iff_eq] at this ⊢
+    rw [htext, this, expectedText_typeText]
+  · have hlines : v.lines = t1.buffer.lines := hl
+    have h1 := TW_unwrapOK hw1
+    simp only [unwrapOK, Bool.and_eq_true, beq_iff_eq] at h1 ⊢
+    rw [hlines]
+    refine ⟨by rw [h1.1, expectedText_typeText], ?_⟩
+    by_cases hls : ls = []
+    · subst hls; exact prefixwise_nil_right _
+    · rw [← typeText_fresh ls hls]; exact h1.2
+
+/-- **C09, `text()`**: for every geometry, the input is accepted and `text()` returns exactly the input
+    lines, trailing white space trimmed, trailing empty lines aside -/
+theorem C09_text {c r : Nat} (hc : 1 ≤ c) (hr : 1 ≤ r) (ls : List (List Nat)) (hp : allPrintable ls = true) :
+    ∃ v ch, fed c r ls = some (v, ch) ∧ textOK ls v.text = true := by
+  obtain ⟨v, ch, h1, h2, -⟩ := fed_ok hc hr ls hp
+  exact ⟨v, ch, h1, h2⟩
+
+/-- **C09, `TextUnwrapper`**: unwrapping `lines()` gives the same lines up to trailing white space -/
+theorem C09_unwrap {c r : Nat} (hc : 1 ≤ c) (hr : 1 ≤ r) (ls : List (List Nat)) (hp : allPrintable ls = true) :
+    ∃ v ch, fed c r ls = some (v, ch) ∧ unwrapOK ls (unwrapAll v.lines) = true := by
+  obtain ⟨v, ch, h1, -, h3⟩ := fed_ok hc hr ls hp
+  exact ⟨v, ch, h1, h3⟩
+
+/-- **C09, width independence**: the same text at two geometries gives the same `text()` -/
+theorem C09_width_indep {c0 r0 c1 r1 : Nat} (h0 : 1 ≤ c0) (h0' : 1 ≤ r0) (h1 : 1 ≤ c1) (h1' : 1 ≤ r1)
+    (ls : List (List Nat)) (hp : allPrintable ls = true) {v0 v1 : Vt} {ch0 ch1 : Changes}
+    (e0 : fed c0 r0 ls = some (v0, ch0)) (e1 : fed c1 r1 ls = some (v1, ch1)) :
+    sameText v0.text v1.text = true := by
+  obtain ⟨w0, d0, f0, t0, -⟩ := fed_ok h0 h0' ls hp
+  obtain ⟨w1, d1, f1, t1, -⟩ := fed_ok h1 h1' ls hp
+  rw [e0] at f0; rw [e1] at f1
+  cases f0; cases f1
+  simp only [textOK, beq_iff_eq] at t0 t1
+  simp only [sameText, beq_iff_eq, t0, t1]
+
+/-- the full statement holds -/
+theorem C09_text_full_holds : C09_text_full := by
+  intro ls hp
+  refine ⟨?_, ?_⟩
+  · intro c r hc hr
+    obtain ⟨v, ch, h1, h2, h3⟩ := fed_ok hc hr ls hp
+    exact ⟨v, ch, h1, by simp [instOK, h2, h3]⟩
+  · intro c0 r0 c1 r1 h0 h0' h1 h1' v0 ch0 v1 ch1 e0 e1
+    exact C09_width_indep h0 h0' h1 h1' ls hp e0 e1
+
+/-! ### a concrete instance -/
+
+/-- "abcdef", "", "xy  " (trailing spaces), on 3x2 (wraps twice, scrolls into the scrollback) and on
+    7x4: the hypotheses are satisfiable, both runs succeed, `text()` is ["abcdef", "", "xy"] on both,
+    the unwrapper agrees up to trailing white space — on the 3-wide screen "xy  " wraps, its last row
+    is all blank, and the unwrapper yields "xy " where `text()` yields "xy": exactly the subtlety
+    `unwrapOK` accounts for — and the rows left by auto-wrap carry the wrap mark -/
+example :
+    let ls : List (List Nat) := [[0x61, 0x62, 0x63, 0x64, 0x65, 0x66], [], [0x78, 0x79, 0x20, 0x20]]
+    allPrintable ls = true ∧
+    (match fed 3 2 ls, fed 7 4 ls with
+     | some (a, _), some (b, _) =>
+       instOK ls a.text (unwrapAll a.lines) && instOK ls b.text (unwrapAll b.lines) && sameText a.text b.text
+         && a.text == [[0x61, 0x62, 0x63, 0x64, 0x65, 0x66], [], [0x78, 0x79]]
+         && (a.lines.map Line.wrapped) == [true, false, false, true, false]
+         && unwrapAll a.lines == [[0x61, 0x62, 0x63, 0x64, 0x65, 0x66], [], [0x78, 0x79, 0x20]]
+     | _, _ => false) = true := by
+  decide
+
+end Avt.Props.C09
